@@ -4,6 +4,6 @@ cd "$(dirname "$(readlink -f "$0")")" || exit 2
 {
   echo "-Q . Ticc"
   echo "-arg -w -arg -deprecated-hint-without-locality,-deprecated-instance-without-locality,-notation-overridden"
-  find Model Proofs Properties Corr -name '*.v' | sort
+  find Model Proofs Properties Corr -name '*.v' | sort | grep -v -x -F -f WIP
 } > _CoqProject
 coq_makefile -f _CoqProject -o Makefile > /dev/null
